@@ -258,7 +258,7 @@ func runC11(c *Ctx, r *Report) {
 			"Wait holds the cond's Locker and re-checks its condition in a loop",
 			fmt.Sprintf("cond wait on %s: locker held=%v, inside a conditioned loop=%v (a wait outside a loop misses spurious/early wake-ups; a wait without the locker panics or loses signals)", cw.Cond, cw.Held, cw.InLoop))
 	}
-	r.Floor("R-C11.2", "condition waits", nw, 2)
+	r.Floor("R-C11.2", "condition waits", nw, 1)
 	// the drain loop on the counter dominates the final unlock and the return
 	drain := &Flow{P: p, Fn: pq, Entry: Facts{}}
 	drain.Edge = func(cond ast.Expr, taken bool, f Facts) {
@@ -424,7 +424,7 @@ func runC11(c *Ctx, r *Report) {
 	// --- R-C11.4 confinement
 	counts := map[string]int{}
 	guardObligations(c, r, le, "R-C11.4", map[string]bool{"Fetcher": true}, counts)
-	r.Floor("R-C11.4", "Fetcher guarded field accesses", counts["Fetcher.tasksCache"]+counts["Fetcher.maxClock"]+counts["Fetcher.minClock"], 12)
+	r.Floor("R-C11.4", "Fetcher guarded field accesses", counts["Fetcher.tasksCache"]+counts["Fetcher.maxClock"]+counts["Fetcher.minClock"], 6)
 	// worker-shared locals: captured variables assigned after declaration, or of the non-thread-safe queue type
 	shared := map[types.Object]bool{}
 	for _, fn := range AllFnsUnder(pq) {
@@ -473,7 +473,7 @@ func runC11(c *Ctx, r *Report) {
 		sn = append(sn, v.Name())
 	}
 	r.Tables["worker_shared_locals"] = sn
-	r.Floor("R-C11.4", "uses of shared locals in the worker", nshared, 8)
+	r.Floor("R-C11.4", "uses of shared locals in the worker", nshared, 4)
 
 	// --- R-C11.5 context propagation
 	fetch := p.Func("entry", "Fetcher", "Fetch")
@@ -517,7 +517,7 @@ func runC11(c *Ctx, r *Report) {
 			}
 		}
 	}
-	r.Floor("R-C11.5", "context-taking calls on the fetch path", nctx, 5)
+	r.Floor("R-C11.5", "context-taking calls on the fetch path", nctx, 3)
 	// WithTimeout in Fetch: result assigned to the ctx variable that is passed on; cancel deferred
 	nto := 0
 	walkNoLit(fetch.Body, func(n ast.Node) bool {
